@@ -21,7 +21,10 @@ KW = {"tx_kind": "full", "rx_kind": "full"}
 def _base(rng, **over):
     rate = rng.choice([1, 2, 250])
     crc = rng.choice([0, 1, 2, 2])
-    c = {"channel": rng.randrange(126), "rate": rate, "aw": rng.choice([3, 4, 5]), "crc": crc,
+    c = {"drain": rng.choice(["avail", "avail", "blind"]),
+         "pl_style": rng.choice(["all", "all", "list", "asc", "desc"]),
+         "pl_other": [rng.randrange(1, 33) for _ in range(6)],
+         "channel": rng.randrange(126), "rate": rate, "aw": rng.choice([3, 4, 5]), "crc": crc,
          "auto_ack": bool(crc) and rng.random() < 0.75, "ask_no_ack": rng.random() < 0.25,
          "pipe": rng.randrange(6), "flavour": rng.choice(["pin", "hwcs", "bus"]),
          "btype": rng.choice(["bytes", "bytearray"]), "static": None, "form": "single",
@@ -93,7 +96,7 @@ def sig_of(case):
     return (tuple(case["lens"]), case["btype"], case["static"], case["pipe"], case["aw"],
             case["rate"], case["crc"], case["auto_ack"], case["ask_no_ack"], case["form"],
             case["flavour"], case.get("tx_kind"), case.get("rx_kind"), tuple(case.get("pre", ())),
-            case.get("aw_first"))
+            case.get("aw_first"), case.get("drain"), case.get("pl_style"))
 
 
 def run_case(ctx, case, kinds=None, prefix=""):
@@ -129,8 +132,17 @@ def _tx_bytes_on_bus(radio):
     return [(c, d) for c, d in radio.ops if c in (0xA0, 0xB0)]
 
 
-def _drain(rx):
+def _drain(rx, blind=False):
     got = []
+    if blind:
+        # the idiom of the network layer: read() until it returns None, no other call in between
+        # (the pipe number is not asked for: that would be another transaction)
+        for _ in range(8):
+            data = rx.read()
+            if data is None:
+                break
+            got.append((None, bytes(data)))
+        return got
     for _ in range(8):
         if not rx.available():
             break
@@ -229,7 +241,10 @@ def _run_single(ctx, case, pair, prefix):
         return
     if not _check_buffers(ctx, case, bufs, copies, ids, prefix):
         return
-    got = _drain(rx)
+    blind = case.get("drain") == "blind" and case.get("rx_kind", "full") == "full"
+    got = _drain(rx, blind)
+    if blind:
+        got = [(case["pipe"], d) for _, d in got]
     ctx.clause("peer_read")
     ctx.clause("exactly_once")
     ctx.clause("pipe_attribution")
